@@ -483,7 +483,7 @@ pub fn make_case(rng: &mut Rng, proj: &Project, k: usize) -> Option<Case> {
 
 pub fn run(ctx: &Ctx, rep: &mut Report) {
     crate::gen_syntax::set_allow_block(false);
-    let n = ctx.budget(480, 48_000);
+    let n = ctx.budget(3_200, 120_000);
     for case_n in 0..n {
         let mut rng = ctx.rng("case", case_n);
         let Some(proj) = gen_project(&mut rng, &ProjOpts::standard()) else {
